@@ -13,7 +13,7 @@
 (* (ObsLine...) and feeds it to the property monitor (Monitor!Update); the *)
 (* properties are the invariant g.viol = <<>> plus NoPanic.                *)
 (***************************************************************************)
-EXTENDS P2P, Monitor
+EXTENDS P2P, Spectator, Monitor
 
 CONSTANTS
   Peers,        \* sequence of [kind |-> "p2p", locals |-> <<handles>>, delay |-> d, host |-> 0]
@@ -35,6 +35,7 @@ CONSTANTS
   EagerNet,     \* TRUE: reliable FIFO network that delivers before any session acts again (component runs)
   DelayValues,  \* input delays set_input_delay may be called with at run time ({} = never)
   VaryAll,      \* TRUE: every peer draws inputs from Values; FALSE: only peer 0 (the others submit Default)
+  MaxBehind, Catchup,   \* spectator catch-up settings
   Granular      \* TRUE: poll_remote_clients / events() are separate steps, packets can be dropped explicitly
 
 VARIABLES ss, cells, game, net, inbox, now, alive, dups, g, lastLine
@@ -44,13 +45,14 @@ sysvars == <<ss, cells, game, net, inbox, now, alive, dups, g, lastLine>>
 N == Len(Peers)
 PeerIds == 0..N-1
 P2PIds == {p \in PeerIds : Peers[p+1].kind = "p2p"}
+SpecIds == {p \in PeerIds : Peers[p+1].kind = "spec"}
 Owner(h) == CHOOSE p \in P2PIds : \E i \in 1..Len(Peers[p+1].locals) : Peers[p+1].locals[i] = h
 
 CfgRecord ==
   [ players |-> NumPlayers, window |-> Window, sparse |-> Sparse,
     predictor |-> IF PredDefault THEN "default" ELSE "repeat",
     desync |-> DesyncInterval, notify |-> Notify, timeout |-> Timeout,
-    max_behind |-> 10, catchup |-> 1, max_delay |-> 8, peers |-> Peers ]
+    max_behind |-> MaxBehind, catchup |-> Catchup, max_delay |-> 8, peers |-> Peers ]
 
 \* spectators attached to host p get the handles NumPlayers, NumPlayers+1, ... in peer order
 SpecsOf(p) == SelectSeq([i \in 1..N |-> i - 1], LAMBDA q : Peers[q+1].kind = "spec" /\ Peers[q+1].host = p)
@@ -73,15 +75,24 @@ NewSession(p, t0) ==
                    Fps, Timeout, Notify, HType(p), t0)
   IN IF PreSynced THEN PreSync(s) ELSE s
 
+PreSyncSpec(s) ==
+  [s EXCEPT !.running = TRUE,
+            !.host = [s.host EXCEPT !.state = "Run", !.sync_remaining = 0, !.nonces = {}, !.sendq = <<>>,
+                                    !.remote_magic = <<s.hostAddr, s.me>>]]
+
+NewSpec(p, t0) ==
+  LET s == SP_New(p, Peers[p+1].host, NumPlayers, Window, Timeout, Notify, Fps, MaxBehind, Catchup, t0)
+  IN IF PreSynced THEN PreSyncSpec(s) ELSE s
+
 T0 == 1000000
 
 Links == {<<a, b>> \in PeerIds \X PeerIds : a # b}
 
 Init ==
   /\ now = T0
-  /\ ss = [p \in P2PIds |-> NewSession(p, T0)]
-  /\ cells = [p \in P2PIds |-> CellsNew(Window)]
-  /\ game = [p \in P2PIds |-> [frame |-> 0, hash |-> HashInit]]
+  /\ ss = [p \in PeerIds |-> IF p \in P2PIds THEN NewSession(p, T0) ELSE NewSpec(p, T0)]
+  /\ cells = [p \in PeerIds |-> CellsNew(Window)]
+  /\ game = [p \in PeerIds |-> [frame |-> 0, hash |-> HashInit]]
   /\ net = [lk \in Links |-> <<>>]
   /\ inbox = [p \in PeerIds |-> <<>>]
   /\ alive = [p \in PeerIds |-> TRUE]
@@ -107,6 +118,15 @@ RxInputs(ib) ==
   IN [j \in 1..Len(idx) |-> <<ib[idx[j]][1], ib[idx[j]][2].start, Len(ib[idx[j]][2].frames), ib[idx[j]][2].dr>>]
 
 RxFrom(ib) == SortedSeq({ib[i][1] : i \in 1..Len(ib)})
+
+\* handshake packets: requests sent <<to, nonce>>, replies consumed <<from, nonce, genuine magic>>
+StxOf(out) ==
+  LET idx == SelectSeq([i \in 1..Len(out) |-> i], LAMBDA i : out[i][2].k = "SRq")
+  IN [j \in 1..Len(idx) |-> <<out[idx[j]][1], out[idx[j]][2].nonce>>]
+SrxOf(me, ib) ==
+  LET idx == SelectSeq([i \in 1..Len(ib) |-> i], LAMBDA i : ib[i][2].k = "SRp")
+  IN [j \in 1..Len(idx) |-> <<ib[idx[j]][1], ib[idx[j]][2].nonce,
+                               IF ib[idx[j]][2].mg = <<ib[idx[j]][1], me>> THEN 1 ELSE 0>>]
 
 ObsSession(s, gm, line) ==
   line @@
@@ -180,7 +200,8 @@ TickWith(p, vals) ==
                   r |-> IF r[3] = "P" THEN "P:" \o s2.err ELSE r[3],
                   q |-> ex[3],
                   cur0 |-> s0.sl.cur, g0 |-> <<game[p].frame, game[p].hash>>,
-                  rxi |-> RxInputs(inbox[p]), rxf |-> RxFrom(inbox[p]), ntx |-> Len(r[2]) ])
+                  rxi |-> RxInputs(inbox[p]), rxf |-> RxFrom(inbox[p]), ntx |-> Len(r[2]),
+                  stx |-> StxOf(r[2]), srx |-> SrxOf(p, inbox[p]) ])
   IN /\ ss' = [ss EXCEPT ![p] = s2]
      /\ cells' = [cells EXCEPT ![p] = ex[1]]
      /\ game' = [game EXCEPT ![p] = ex[2]]
@@ -204,7 +225,8 @@ Poll(p) ==
          line == ObsSession(r[1], game[p],
                    [ a |-> "poll", p |-> p, n |-> 0, t |-> now,
                      r |-> IF r[1].err # "" THEN "P:" \o r[1].err ELSE "ok",
-                     rxi |-> RxInputs(inbox[p]), rxf |-> RxFrom(inbox[p]), ntx |-> Len(r[2]) ])
+                     rxi |-> RxInputs(inbox[p]), rxf |-> RxFrom(inbox[p]), ntx |-> Len(r[2]),
+                  stx |-> StxOf(r[2]), srx |-> SrxOf(p, inbox[p]) ])
      IN /\ ss' = [ss EXCEPT ![p] = r[1]]
         /\ inbox' = [inbox EXCEPT ![p] = <<>>]
         /\ net' = Transmit(net, p, r[2], 1)
@@ -215,6 +237,53 @@ Events(p) ==
   /\ alive[p] /\ ss[p].err = ""
   /\ ss[p].evq # <<>>
   /\ LET r == P2P_Events(ss[p])
+     IN /\ ss' = [ss EXCEPT ![p] = r[1]]
+        /\ Feed([a |-> "ev", p |-> p, n |-> 0, t |-> now, r |-> "ok", ev |-> r[2]])
+        /\ UNCHANGED <<cells, game, net, inbox, now, alive, dups>>
+
+\* observation line of a spectator session
+ObsSpec(s, gm, line) ==
+  line @@
+  [ g |-> <<gm.frame, gm.hash>>, cur |-> s.cur, run |-> s.running, lrf |-> s.last_recv, evq |-> Len(s.evq),
+    st |-> [i \in 1..s.np |-> <<s.host_status[i-1].disc, s.host_status[i-1].last>>] ]
+
+TickSpecWith(p) ==
+  LET s0 == ss[p]
+      r  == SP_AdvanceFrame(s0, inbox[p], now)
+      ex == IF r[3] = "ok" THEN ExecA(Window, cells[p], game[p], r[4], 1, <<>>) ELSE <<cells[p], game[p], <<>>>>
+      line == ObsSpec(r[1], ex[2],
+                [ a |-> "tick", p |-> p, n |-> 0, t |-> now,
+                  r |-> IF r[3] = "P" THEN "P:" \o r[1].err ELSE r[3],
+                  q |-> ex[3], cur0 |-> s0.cur, g0 |-> <<game[p].frame, game[p].hash>>,
+                  rxi |-> RxInputs(inbox[p]), rxf |-> RxFrom(inbox[p]), ntx |-> Len(r[2]),
+                  stx |-> StxOf(r[2]), srx |-> SrxOf(p, inbox[p]) ])
+  IN /\ ss' = [ss EXCEPT ![p] = r[1]]
+     /\ game' = [game EXCEPT ![p] = ex[2]]
+     /\ inbox' = [inbox EXCEPT ![p] = <<>>]
+     /\ net' = Transmit(net, p, r[2], 1)
+     /\ Feed(line)
+     /\ UNCHANGED <<cells, now, alive, dups>>
+
+SpecTick(p) == NetQuiet /\ alive[p] /\ ss[p].err = "" /\ ss[p].cur < MaxFrame - 1 /\ TickSpecWith(p)
+
+PollSpecWith(p) ==
+  LET r == SP_Poll(ss[p], inbox[p], now)
+      line == ObsSpec(r[1], game[p],
+                [ a |-> "poll", p |-> p, n |-> 0, t |-> now,
+                  r |-> IF r[1].err # "" THEN "P:" \o r[1].err ELSE "ok",
+                  rxi |-> RxInputs(inbox[p]), rxf |-> RxFrom(inbox[p]), ntx |-> Len(r[2]),
+                  stx |-> StxOf(r[2]), srx |-> SrxOf(p, inbox[p]) ])
+  IN /\ ss' = [ss EXCEPT ![p] = r[1]]
+     /\ inbox' = [inbox EXCEPT ![p] = <<>>]
+     /\ net' = Transmit(net, p, r[2], 1)
+     /\ Feed(line)
+     /\ UNCHANGED <<cells, game, now, alive, dups>>
+
+PollSpec(p) == alive[p] /\ ss[p].err = "" /\ inbox[p] # <<>> /\ PollSpecWith(p)
+
+EventsSpec(p) ==
+  /\ alive[p] /\ ss[p].err = "" /\ ss[p].evq # <<>>
+  /\ LET r == SP_Events(ss[p])
      IN /\ ss' = [ss EXCEPT ![p] = r[1]]
         /\ Feed([a |-> "ev", p |-> p, n |-> 0, t |-> now, r |-> "ok", ev |-> r[2]])
         /\ UNCHANGED <<cells, game, net, inbox, now, alive, dups>>
@@ -298,6 +367,7 @@ DeathStep ==
 
 Next ==
   \/ \E p \in P2PIds : Tick(p) \/ (Granular /\ (Poll(p) \/ Events(p)))
+  \/ \E p \in SpecIds : SpecTick(p) \/ (Granular /\ (PollSpec(p) \/ EventsSpec(p)))
   \/ DelayStep
   \/ DeathStep
   \/ NetStep
@@ -309,7 +379,7 @@ Spec == Init /\ [][Next]_sysvars
 \* properties
 
 NoViolation == g.viol = <<>>
-NoPanic == \A p \in P2PIds : ss[p].err = ""
+NoPanic == \A p \in PeerIds : ss[p].err = ""
 
 \* observation/statistics fields do not distinguish states
 View == <<ss, cells, game, net, inbox, now, alive, dups, [g EXCEPT !.stats = 0]>>
